@@ -13,9 +13,19 @@ Definition lasso_sel (coef : nat -> Z) (n : nat) : list nat := filter (fun c => 
    implementation's edge list does *)
 Definition pair_mem (p : nat * nat) (l : list (nat * nat)) : bool :=
   existsb (fun q => Nat.eqb (fst p) (fst q) && Nat.eqb (snd p) (snd q)) l.
+(* verdict / information tables with an explicit default: a query the implementation never made falls back to it *)
+Definition tbl_g_d (d : bool) (tbl : list (nat * list nat * bool)) : nat -> list nat -> bool :=
+  fun j Zs => lookup tbl d j (sort_nat Zs).
+Definition tbl_f_d (d : Z) (tbl : list (nat * list nat * Z)) : nat -> list nat -> Z :=
+  fun j Zs => lookup tbl d j (sort_nat Zs).
 Definition check_recovery_case
   (c : bool * nat * nat * list nat * list (nat * list nat * Z) * list (nat * list nat * bool)
        * list (nat * list nat * bool) * list nat * (nat * nat) * list (nat * nat)) : bool :=
   let '(std, n, L, init, tf, tF, tB, order, planted, edges) := c in
-  let sel := ocse (tbl_f tf) (tbl_g tF) (tbl_g tB) init (if std then Standard else Alternative) n order in
+  let v := if std then Standard else Alternative in
+  let run := fun (df : Z) (dg : bool) => ocse (tbl_f_d df tf) (tbl_g_d dg tF) (tbl_g_d dg tB) init v n order in
+  let sel := run 0%Z false in
+  (* the rule must not need any evaluation or test the implementation did not make: the result may not depend on the
+     value assumed for an unrecorded query *)
+  list_nat_eqb sel (run 0%Z true) && list_nat_eqb sel (run 1000000%Z false) && list_nat_eqb sel (run (-1)%Z true) &&
   Bool.eqb (existsb (Nat.eqb (feature_index L (fst planted) (snd planted))) sel) (pair_mem planted edges).
